@@ -7,6 +7,7 @@ import (
 
 	"github.com/pentops/j5/gen/j5/schema/v1/schema_j5pb"
 	"github.com/pentops/j5/gen/j5/sourcedef/v1/sourcedef_j5pb"
+	"github.com/pentops/j5/internal/bcl/errpos"
 	"github.com/pentops/j5/internal/bcl/gen/j5/bcl/v1/bcl_j5pb"
 )
 
@@ -119,6 +120,24 @@ type importDef struct {
 	source   *bcl_j5pb.SourceLocation
 }
 
+// position is where the import statement is in the source file, nil when the
+// file has no source locations.
+func (id *importDef) position() *errpos.Position {
+	if id.source == nil {
+		return nil
+	}
+	return &errpos.Position{
+		Start: errpos.Point{
+			Line:   int(id.source.StartLine),
+			Column: int(id.source.StartColumn),
+		},
+		End: errpos.Point{
+			Line:   int(id.source.EndLine),
+			Column: int(id.source.EndColumn),
+		},
+	}
+}
+
 type importMap struct {
 	vals        map[string]*importDef
 	thisPackage string
@@ -188,6 +207,9 @@ type expandedRef struct {
 	ref      *schema_j5pb.Ref
 	implicit *TypeRef
 	local    bool
+
+	// the import statement which names the package, when there is one
+	imported *importDef
 }
 
 func implicitRef(ref *schema_j5pb.Ref) *expandedRef {
@@ -237,8 +259,9 @@ func (im importMap) expand(ref *schema_j5pb.Ref) *expandedRef {
 	}
 
 	return &expandedRef{
-		local: spec == im.thisPackage,
-		ref:   newRef,
+		local:    spec == im.thisPackage,
+		ref:      newRef,
+		imported: newPackage,
 	}
 
 }
